@@ -419,26 +419,121 @@ theorem readNumber_digits (checkInt neg : Bool) (ds r' : List Nat) (c : Nat)
     have h2 : ¬ ((if neg then -(digitsVal ds : Int) else (digitsVal ds : Int)) > 9223372036854775807) := by omega
     simp [h1, h2]
   have hemp : ds.isEmpty = false := by cases ds <;> simp_all
+  clear hrange
   cases neg with
   | true =>
-    simp only [↓reduceIte, List.cons_append, List.nil_append] at hrange ⊢
+    simp only [↓reduceIte, List.cons_append, List.nil_append] at hr ⊢
     unfold readNumber
     simp only [ht, hdr, hemp, hz', Bool.or_false, Bool.false_eq_true, ↓reduceIte]
-    rcases hc with h | h <;> subst h <;> simp [numEnd, isWs, hrange]
+    rcases hc with h | h <;> subst h <;> simp [numEnd, isWs] <;> (intros; omega)
   | false =>
-    simp only [Bool.false_eq_true, ↓reduceIte, List.nil_append] at hrange ⊢
+    simp only [Bool.false_eq_true, ↓reduceIte, List.nil_append] at hr ⊢
     cases ds with
     | nil => exact absurd rfl hne
     | cons d ds' =>
       have hd45 : d ≠ 45 := by
         have := hd d (by simp)
         simp [isDigit] at this; omega
+      have hm : Json.readNumber.match_1 (fun _ => Bool × List Nat) (d :: (ds' ++ c :: r'))
+          (fun r => (true, r)) (fun _ => (false, d :: (ds' ++ c :: r'))) = (false, d :: (ds' ++ c :: r')) := by
+        split
+        · rename_i heq
+          simp at heq; exact absurd heq.1 hd45
+        · rfl
       unfold readNumber
-      split
-      · rename_i r heq
-        simp at heq; exact absurd heq.1 hd45
-      · simp only [ht, hdr, hemp, hz', Bool.or_false, Bool.false_eq_true, ↓reduceIte]
-        rcases hc with h | h <;> subst h <;> simp [numEnd, isWs, hrange]
+      simp only [List.cons_append] at ht hdr ⊢
+      simp only [hm, ht, hdr, hemp, hz', Bool.or_false, Bool.false_eq_true, ↓reduceIte]
+      rcases hc with h | h <;> subst h <;> simp [numEnd, isWs] <;> (intros; omega)
+
+theorem skipWs_cons (b : Nat) (r : List Nat) (h : isWs b = false) : skipWs (b :: r) = b :: r := by
+  simp [skipWs, h]
+
+theorem readValue_num (checkInt : Bool) (f b : Nat) (r : List Nat) (h : b = 45 ∨ isDigit b = true) :
+    readValue checkInt (f + 1) (b :: r) = readNumber checkInt (b :: r) := by
+  have hb : 45 ≤ b ∧ b ≤ 57 := by
+    rcases h with h | h
+    · omega
+    · simp [isDigit] at h; omega
+  have hws : isWs b = false := by simp [isWs]; omega
+  rw [readValue, skipWs_cons b r hws]
+  split
+  all_goals first
+    | (rename_i heq; simp at heq; done)
+    | (rename_i heq; simp at heq; omega)
+    | skip
+  · rename_i b' r' _ _ _ _ _ _ heq
+    simp at heq
+    obtain ⟨rfl, rfl⟩ := heq
+    have : (b == 45 || isDigit b) = true := by
+      rcases h with h | h <;> simp [h]
+    simp [this]
+
+theorem readValue_int (checkInt : Bool) (f : Nat) (i : Int) (c : Nat) (r' : List Nat)
+    (hi : -9223372036854775808 ≤ i ∧ i ≤ 9223372036854775807) (hc : c = 44 ∨ c = 125) :
+    readValue checkInt (f + 1) (intToDec i ++ c :: r') = some (.int i, c :: r') := by
+  by_cases hneg : i < 0
+  · have e : intToDec i ++ c :: r' = (if true then [45] else []) ++ natToDec i.natAbs ++ c :: r' := by
+      simp [intToDec, hneg]
+    have hv : -((digitsVal (natToDec i.natAbs) : Nat) : Int) = i := by
+      rw [digitsVal_natToDec]; omega
+    have := readNumber_digits checkInt true (natToDec i.natAbs) r' c (natToDec_ne_nil _)
+      (natToDec_digits _) (fun _ => natToDec_head _ (by omega)) hc
+      (by simp only [↓reduceIte, hv]; exact hi)
+    simp only [↓reduceIte, hv] at this
+    rw [e]
+    simp only [↓reduceIte, List.cons_append, List.nil_append] at this ⊢
+    rw [readValue_num checkInt f 45 _ (Or.inl rfl), this]
+  · have e : intToDec i ++ c :: r' = (if false then [45] else []) ++ natToDec i.toNat ++ c :: r' := by
+      simp [intToDec, hneg]
+    have hv : ((digitsVal (natToDec i.toNat) : Nat) : Int) = i := by
+      rw [digitsVal_natToDec]; omega
+    have hz : (natToDec i.toNat).length > 1 → (natToDec i.toNat).head? ≠ some 48 := by
+      intro hl
+      by_cases h0 : i.toNat = 0
+      · rw [h0, natToDec_step] at hl; simp at hl
+      · exact natToDec_head _ (by omega)
+    have := readNumber_digits checkInt false (natToDec i.toNat) r' c (natToDec_ne_nil _)
+      (natToDec_digits _) hz hc
+      (by simp only [Bool.false_eq_true, ↓reduceIte, hv]; exact hi)
+    simp only [Bool.false_eq_true, ↓reduceIte, hv, List.nil_append] at this
+    rw [e]
+    simp only [Bool.false_eq_true, ↓reduceIte, List.nil_append]
+    cases hd : natToDec i.toNat with
+    | nil => exact absurd hd (natToDec_ne_nil _)
+    | cons d ds =>
+      rw [hd] at this
+      have hdig := natToDec_digits i.toNat d (by rw [hd]; simp)
+      simp only [List.cons_append] at this ⊢
+      rw [readValue_num checkInt f d _ (Or.inr hdig), this]
+
+theorem readValue_write (checkInt : Bool) (f : Nat) (v : JVal) (c : Nat) (r' : List Nat)
+    (hv : valOK v = true) (hc : c = 44 ∨ c = 125) :
+    readValue checkInt (f + 1) (writeVal v ++ c :: r') = some (v, c :: r') := by
+  cases v with
+  | str s =>
+    simp only [valOK] at hv
+    have := readStrBody_esc s (c :: r') [] (((s.map Json.escByte).flatten ++ 34 :: c :: r').length + 1) hv
+      (by have := length_le_esc s; simp only [List.length_append]; omega)
+    simp only [writeVal, writeStr, List.cons_append, List.append_assoc, List.nil_append]
+    rw [readValue, skipWs_cons 34 _ (by decide)]
+    show Option.map _ (readStrBody (((s.map Json.escByte).flatten ++ 34 :: c :: r').length + 1)
+      ((s.map Json.escByte).flatten ++ 34 :: c :: r') []) = _
+    rw [this]
+    rfl
+  | int i =>
+    simp only [valOK, decide_eq_true_eq] at hv
+    exact readValue_int checkInt f i c r' hv hc
+  | bool b =>
+    cases b
+    · simp only [writeVal, List.cons_append, List.nil_append]
+      rw [readValue, skipWs_cons 102 _ (by decide)]; rfl
+    · simp only [writeVal, List.cons_append, List.nil_append]
+      rw [readValue, skipWs_cons 116 _ (by decide)]; rfl
+  | null =>
+    simp only [writeVal, List.cons_append, List.nil_append]
+    rw [readValue, skipWs_cons 110 _ (by decide)]; rfl
+  | num q => simp [valOK] at hv
+  | nested raw => simp [valOK] at hv
 
 end JsonPart
 end C06Writers
